@@ -519,7 +519,7 @@ theorem compress_ginv {T : Table D} {K : Nat} {st : Bool} {join : D → D → Bo
       (canonOf st (termKmer K x.1.seq s)).1 ∈ (windowsOf K x.1.seq).map (fun w => (canonOf st w).1) := by
     intro i x hi s
     exact List.mem_map_of_mem (term_mem_windows K x.1.seq wf.kpos (hlen x (List.mem_of_getElem? hi)) s)
-  refine ⟨wf.kpos, ?_, ?_, ?_, ?_⟩
+  refine ⟨⟨wf.kpos, ?_, ?_, ?_⟩, ?_⟩
   · intro i n hi
     obtain ⟨x, hx, rfl⟩ := hget i n hi
     exact hlen x (List.mem_of_getElem? hx)
